@@ -60,8 +60,8 @@ type Case struct {
 
 var featOps = map[string][]string{
 	"regex":     {"ONewRegexp 1", "ORegexExec 1", "OLoadLit 1"},
-	"tmpl":      {"OTaggedTmpl 2", "OTmplRead 2 false 0", "OTmplRead 2 true 1", "OTmplWriteAttempt 2 false 0"},
-	"tmplredef": {"OTaggedTmpl 2", "OTmplRead 2 false 0", "OTmplRedefine 2 false 0"},
+	"tmpl":      {"OTaggedTmpl 2 4", "OTmplRead 2 false 0", "OTmplRead 2 true 1", "OTmplWriteAttempt 2 false 0"},
+	"tmplredef": {"OTaggedTmpl 2 4", "OTmplRead 2 false 0", "OTmplRedefine 2 false 0", "OTmplRedefine 2 true 1"},
 	"class":     {"ONewFunc 3", "OEnterFunc 3 false", "OLocal 1"},
 	"eval":      {"OEnterFunc 4 true", "OEvalBindVar", "OLookupName 4", "ODeleteBinding"},
 	"with":      {"OEnterBlock 5", "OLookupName 5"},
@@ -72,19 +72,12 @@ var featOps = map[string][]string{
 	"misc":      {"OLocal 3"},
 }
 
-// features for which the MODEL predicts a write to Program-owned memory (open finding C16-N1)
-var featRacy = map[string]bool{"tmplredef": true}
-
-func coqOps(feat []string) (string, bool) {
+func coqOps(feat []string) string {
 	ops := []string{"OFetch"}
-	racy := false
 	for _, f := range feat {
 		ops = append(ops, featOps[f]...)
-		if featRacy[f] {
-			racy = true
-		}
 	}
-	return vh.CoqList(ops), racy
+	return vh.CoqList(ops)
 }
 
 // ------------------------------------------------------------------------------------------------
@@ -104,6 +97,13 @@ func snipRegex(r *vh.Rng) string {
 	f := flagsList[r.Intn(len(flagsList))]
 	s := jsStr(uniStrs[r.Intn(len(uniStrs))])
 	li := r.Intn(6)
+	if r.Chance(35) {
+		re2 := []string{`a(\d+)`, `a`, `[^\s]+`, `\d`, `a.`, `(a)|(\d)`, `[a-z]\d`}
+		p = re2[r.Intn(len(re2))]
+		f = []string{"g", "y", "gy", "gi", "gm"}[r.Intn(5)]
+		s = jsStr([]string{"a1 a22 a333", "a1a2a3a4", "aaa a1", "a1 b2 c3 a4"}[r.Intn(4)])
+		return fmt.Sprintf(`(function(){var re=/%s/%s,s=%s,o=[],m,n=0;while((m=re.exec(s))!==null&&n++<8){o.push(m[0]+"@"+re.lastIndex)}re.lastIndex=2;o.push(String(re.exec(s)),re.lastIndex,s.replace(re,"#"));R.push("re2:"+o.join())})();`, p, f, s)
+	}
 	switch r.Intn(4) {
 	case 0: // exec loop with lastIndex
 		return fmt.Sprintf(`(function(){var re=/%s/%s,s=%s,o=[],m,n=0;while((m=re.exec(s))!==null&&n++<8){o.push(m[0]+"@"+re.lastIndex+":"+m.index);if(!re.global&&!re.sticky)break;if(m[0]==="")re.lastIndex++}re.lastIndex=%d;o.push(re.test(s)+"/"+re.lastIndex);R.push(o.join())})();`, p, f, s, li)
@@ -601,7 +601,7 @@ func runCase(c Case) vh.Record {
 	raw := vh.MustJSON(c)
 	switch c.Kind {
 	case "prog":
-		ops, racy := coqOps(c.Feat)
+		ops := coqOps(c.Feat)
 		tags := append([]string{"prog", fmt.Sprintf("g=%d", c.G)}, c.Feat...)
 		shared, err := goja.Compile("case.js", c.Src, false)
 		if err != nil {
@@ -631,7 +631,7 @@ func runCase(c Case) vh.Record {
 		if strings.HasPrefix(seq, "err:") {
 			tags = append(tags, "result:"+strings.SplitN(seq, "\x00", 2)[0])
 		}
-		return vh.Record{Case: raw, Coq: fmt.Sprintf("CProg %s %s %s %s", ops, vh.CoqBool(racy), vh.CoqN(fp(seq)), vh.CoqList(rs)),
+		return vh.Record{Case: raw, Coq: fmt.Sprintf("CProg %s %s %s", ops, vh.CoqN(fp(seq)), vh.CoqList(rs)),
 			Obs: obs, Tags: tags, Nontrivial: c.G >= 2 && !strings.HasPrefix(seq, "err:")}
 	case "vals":
 		tags := []string{"vals", fmt.Sprintf("g=%d", c.G)}
@@ -639,20 +639,19 @@ func runCase(c Case) vh.Record {
 		if err != nil || len(vals) == 0 {
 			return vh.Record{Case: raw, Coq: "CFail", Obs: fmt.Sprintf("cannot build values: %v", err), Tags: append(tags, "build_error")}
 		}
-		var uses, imps []string
-		racy := false
+		var acts []string
+		unscanned := false
 		seenRepr := map[string]bool{}
-		seenPv := map[string]bool{}
-		seenImp := map[string]bool{}
 		for _, v := range vals {
 			rp := goja.VerifRepr(v)
 			if i := strings.IndexByte(rp, ':'); i > 0 && !strings.HasPrefix(rp, "imported") {
 				rp = rp[:i]
 			}
-			if !seenRepr[rp] {
-				seenRepr[rp] = true
-				tags = append(tags, "repr:"+rp)
+			if seenRepr[rp] {
+				continue
 			}
+			seenRepr[rp] = true
+			tags = append(tags, "repr:"+rp)
 			pv := ""
 			switch rp {
 			case "ascii":
@@ -670,23 +669,17 @@ func runCase(c Case) vh.Record {
 			case "undefined", "null":
 				pv = "VNullUndef"
 			case "imported:unscanned":
-				racy = true
-				if seenImp[rp] {
-					break
-				}
-				seenImp[rp] = true
-				imps = append(imps, "(IEnsureThenU, false)", "(IStrictEqAscii, false)", "(IConcatImported 1 false, false)", "(IReader, false)", "(IReadSOnly, false)")
+				unscanned = true
+				acts = append(acts, "AImp 1 (IEnsureThenU OnceSlowScan)", "AImp 1 (IEnsureThenU OnceSlowNoop)", "AImp 1 (IStrictEqAscii false)",
+					"AImp 1 (IConcatImported 2 false false true OnceFast)", "AImp 1 (IConcatImported 2 false true false OnceSlowScan)",
+					"AImp 1 (IStrictEqImported 2 false OnceSlowScan OnceFast)", "AImp 1 (IReader false)", "AImp 1 IReadSOnly", "AImp 1 (IEquals false OnceSlowNoop)")
 			case "imported:scanned-unicode", "imported:scanned-ascii":
-				if seenImp["scanned"] {
-					break
-				}
-				seenImp["scanned"] = true
-				imps = append(imps, "(IEnsureThenU, true)", "(IStrictEqAscii, true)", "(IConcatOther, true)", "(IReader, true)")
+				acts = append(acts, "AImp 4 (IEnsureThenU OnceFast)", "AImp 4 (IStrictEqAscii true)", "AImp 4 (IConcatOther true OnceFast)",
+					"AImp 4 (IReader true)", "AImp 4 (IStrictEqUnicode OnceFast)")
 			}
-			if pv != "" && !seenPv[pv] {
-				seenPv[pv] = true
+			if pv != "" {
 				for _, o := range []string{"PLength", "PCharAt", "PConcat", "PCompare", "PEquals", "PHash", "PExport", "PAsKey"} {
-					uses = append(uses, fmt.Sprintf("(%s, %s)", pv, o))
+					acts = append(acts, fmt.Sprintf("APrim (%s) %s", pv, o))
 				}
 			}
 		}
@@ -711,8 +704,8 @@ func runCase(c Case) vh.Record {
 				}
 			}
 		}
-		return vh.Record{Case: raw, Coq: fmt.Sprintf("CVals %s %s %s %s %s", vh.CoqList(uses), vh.CoqList(imps), vh.CoqBool(racy), vh.CoqN(fp(seq)), vh.CoqList(rs)),
-			Obs: obs, Tags: tags, Nontrivial: racy || len(vals) > 2}
+		return vh.Record{Case: raw, Coq: fmt.Sprintf("CVals %s %s %s", vh.CoqList(acts), vh.CoqN(fp(seq)), vh.CoqList(rs)),
+			Obs: obs, Tags: tags, Nontrivial: unscanned || len(vals) > 2}
 	case "xrt":
 		return runXrt(c, raw)
 	}
@@ -795,6 +788,23 @@ func runXrt(c Case, raw json.RawMessage) vh.Record {
 		case "newarray":
 			arr := b.NewArray(val)
 			got = arr.Get("0")
+		case "goret":
+			// a reflect-wrapped Go function of runtime B returning the value: the result goes through ToValue
+			if err = b.Set("gofn", func() interface{} { return val }); err == nil {
+				got, err = b.RunString("gofn()")
+			}
+		case "callarg":
+			// the value handed directly to a Callable of runtime B (no conversion on the way)
+			var fv goja.Value
+			fv, err = b.RunString("(function(o){ return typeof o + ':' + (o === null ? 0 : Object.keys(Object(o)).length) })") // B really uses the value
+			if err == nil {
+				fn, _ := goja.AssertFunction(fv)
+				v, _ := val.(goja.Value)
+				if v == nil {
+					v = b.ToValue(val)
+				}
+				got, err = fn(goja.Undefined(), v)
+			}
 		default:
 			got = b.ToValue(val)
 		}
@@ -821,14 +831,18 @@ func runXrt(c Case, raw json.RawMessage) vh.Record {
 		code = 0
 	}()
 	names := []string{"accepted", "null", "TypeError", "other"}
-	return vh.Record{Case: raw, Coq: fmt.Sprintf("CXrt 1 (%s) %s", g, vh.CoqN(uint64(code))),
+	return vh.Record{Case: raw, Coq: fmt.Sprintf("CXrt %s 1 (%s) %s", vh.CoqBool(c.Xrt.Path == "callarg"), g, vh.CoqN(uint64(code))),
 		Obs: names[code] + " " + detail, Tags: []string{"xrt", "xrt:" + c.Xrt.Obj, "path:" + c.Xrt.Path}, Nontrivial: g == "GObject 0"}
 }
 
 func genXrt(r *vh.Rng) Case {
 	objs := []string{"object", "array", "func", "date", "proxy", "own", "prim", "sym", "nil"}
-	paths := []string{"set", "tovalue", "setfield", "newarray"}
-	return Case{Kind: "xrt", Xrt: &XrtSpec{Obj: objs[r.Intn(len(objs))], Path: paths[r.Intn(len(paths))]}}
+	paths := []string{"set", "tovalue", "setfield", "newarray", "goret", "callarg"}
+	c := Case{Kind: "xrt", Xrt: &XrtSpec{Obj: objs[r.Intn(len(objs))], Path: paths[r.Intn(len(paths))]}}
+	if c.Xrt.Path == "callarg" && c.Xrt.Obj == "nil" {
+		c.Xrt.Obj = "object" // a nil *Object is not a Value that can be passed directly
+	}
+	return c
 }
 
 func genCase(r *vh.Rng) Case {
